@@ -55,17 +55,19 @@ def slug(s):
     return re.sub(r'[^A-Za-z0-9_.-]+', '_', s)[:120]
 
 
-def run_units(prop, tier, jobs, findings=()):
+def run_units(prop, tier, jobs, findings=(), only_units=None, only_harness=None):
     spec = PROPERTIES[prop]
     results = []
     seeds = (1, 2, 3) if tier == 'thorough' else ()
     for modname in spec['units']:
+        if only_units and modname not in only_units:
+            continue
         t0 = time.time()
         try:
             mod = importlib.import_module(modname)
             unit = mod.build(REPO)
             if isinstance(unit, klib.KaniUnit):
-                r = klib.run_kani_unit(unit, REPO, tier=tier, jobs=jobs, prop=prop,
+                r = klib.run_kani_unit(unit, REPO, tier=tier, jobs=jobs, prop=prop, only=only_harness,
                                        known=lambda f: any(finding_for(p_, f, findings) for p_ in f.get('props', [prop])))
             else:
                 r = vlib.run_unit(unit, os.path.join(WORK, prop), tier=tier, seeds=seeds)
@@ -98,7 +100,7 @@ def obligation_props(unit, f, prop_default):
 
 
 def write_replay(prop, r, f):
-    d = os.path.join(VERIF, 'replays', prop)
+    d = os.path.join(os.environ.get('VERIF_REPLAY_DIR', os.path.join(VERIF, 'replays')), prop)
     os.makedirs(d, exist_ok=True)
     name = '%s-%s.json' % (r['unit'], slug(f['obligation']))
     path = os.path.join(d, name)
@@ -200,17 +202,18 @@ def evidence(prop, tier, results, viols, known, undecided, wall):
     }
     ev = {'property_id': prop, 'tier': tier, 'seed': int(os.environ.get('VERIF_SEED', '0') or 0), 'level': spec['level'], 'coverage': cov,
           'assumptions': sorted(set(assumptions)) + spec.get('assumptions', []), 'wall_s': round(wall, 2), 'violations': len(viols)}
-    os.makedirs(os.path.join(VERIF, 'evidence'), exist_ok=True)
-    json.dump(ev, open(os.path.join(VERIF, 'evidence', prop + '.json'), 'w'), indent=1)
+    evdir = os.environ.get('VERIF_EVIDENCE_DIR', os.path.join(VERIF, 'evidence'))
+    os.makedirs(evdir, exist_ok=True)
+    json.dump(ev, open(os.path.join(evdir, prop + '.json'), 'w'), indent=1)
 
 
-def check(prop, tier, jobs):
+def check(prop, tier, jobs, only_units=None, only_harness=None):
     t0 = time.time()
     if prop not in PROPERTIES:
         print('property %s is not claimed (see MANIFEST.json not_applicable)' % prop)
         return 2
     findings = load_findings()
-    results = run_units(prop, tier, jobs, findings)
+    results = run_units(prop, tier, jobs, findings, only_units, only_harness)
     viols, known, undecided = [], [], []
     for r in results:
         u = r.get('_unit')
@@ -274,14 +277,16 @@ def main():
     ap.add_argument('cmd', choices=['check', 'replay', 'list'])
     ap.add_argument('arg', nargs='?')
     ap.add_argument('--tier', default=os.environ.get('VERIF_TIER', 'quick'))
-    ap.add_argument('--jobs', type=int, default=int(os.environ.get('VERIF_JOBS', '12')))
+    ap.add_argument('--jobs', type=int, default=int(os.environ.get('VERIF_JOBS', '14')))
+    ap.add_argument('--units', default=None, help='(selftest / debugging) restrict to these unit modules, comma separated')
+    ap.add_argument('--harness', default=None, help='(selftest / debugging) restrict Kani units to these harnesses, comma separated')
     a = ap.parse_args()
     if a.cmd == 'list':
         for p, s in PROPERTIES.items():
             print(p, s['units'])
         return 0
     if a.cmd == 'check':
-        return check(a.arg, a.tier, a.jobs)
+        return check(a.arg, a.tier, a.jobs, a.units.split(',') if a.units else None, a.harness.split(',') if a.harness else None)
     return replay(a.arg)
 
 
